@@ -14,3 +14,11 @@ package initproducerid
 //@ wire Response
 //@   layout v0..v1 ThrottleTimeMs int32, ErrorCode int16, ProducerID int64, ProducerEpoch int16
 //@   layout v2..v4 _ struct{} @-1, ThrottleTimeMs int32, ErrorCode int16, ProducerID int64, ProducerEpoch int16
+
+//@ property C12
+// Routing (C12): which of the protocol message interfaces the request satisfies decides where the Transport sends it
+// (connPool.sendRequest tests BrokerMessage, then GroupMessage, then TransactionalMessage).
+//@ wire Request
+//@   implements protocol.TransactionalMessage
+//@   notimplements protocol.GroupMessage
+//@   notimplements protocol.BrokerMessage
